@@ -301,6 +301,8 @@ def _rewrite_call(text, r, log):
         tm = tail.match(text, end)
         if not tm:
             out.append(text[pos:end]); pos = end; continue
+        if r.get("args_sub"):
+            args = re.sub(r["args_sub"][0], r["args_sub"][1], args, flags=re.S)
         kw = {"args": args}
         for i, g in enumerate(m.groups(), 1): kw["m%d" % i] = g
         for i, g in enumerate(tm.groups(), 1): kw["t%d" % i] = g
@@ -382,7 +384,7 @@ def apply_hints(text, hints, fn_name):
     for h in hints:
         anchor = h.get("after") or h.get("before")
         n = text.count(anchor)
-        if n != h.get("count", 1):
+        if n < 1 or (h.get("count") is not None and n != h["count"]):
             raise ExtractError("lost anchor: hint anchor %r in %s matched %d times" % (anchor[:70], fn_name, n))
         ins = h["text"]
         if "after" in h:
@@ -473,6 +475,15 @@ def build_item(repo, item, log):
         body = "{\n" + item.get("pre", "") + r["text"] + item.get("post", "") + "\n}"
         where = "%s:%d-%d (region of %s)" % (item["file"], r["line"], r["end_line"], item["within"])
         name = name or re.match(r"fn\s+(\w+)", sig).group(1)
+    elif kind == "lines":
+        out = []
+        for pat in item["patterns"]:
+            ms = re.findall(pat, src, flags=re.M)
+            if len(ms) != 1:
+                raise ExtractError("lost anchor: line pattern /%s/ matched %d times in %s" % (pat, len(ms), item["file"]))
+            out.append(re.sub(r"pub\((crate|super)\)", "pub", ms[0]))
+        return dict(name="lines", text="// ---- extracted lines from %s\n%s\n" % (item["file"], "\n".join(out)), where=item["file"],
+                    raw_lines=len(out), body=None, head=None, attrs="", is_type=True)
     elif kind == "struct":
         m = re.search(r"(?m)^\s*(?:pub(?:\([a-z]+\))?\s+)?(struct|enum)\s+%s\b[^;{]*\{" % re.escape(item["struct"]), src)
         if not m:
